@@ -152,6 +152,10 @@ class Deck:
         return tuple(sum(B[j][i] * d[j] for j in range(3)) for i in range(3))      # B^T d
 
     def surf_regions(self, sid, pt):
+        if sid not in self.surfs and sid >= 1000:
+            # implicit surface 1000*cell + surface: surface `sid % 1000` moved by the TRCL of cell `sid // 1000`
+            cell = self.cells[sid // 1000]
+            return self.surf_regions(sid % 1000, self.to_aux(cell.trcl, pt))
         s = self.surfs[sid]
         if s.tr:
             pt = self.to_aux(('num', s.tr), pt)
@@ -390,10 +394,11 @@ def level0_deck(seed, n_cells=4, n_surfs=5, with_tr=True, with_macro=True, with_
     prev = []
     use_imp_card = rng.random() < 0.3
     imps = []
+    implicit = []
     for i in range(n_cells):
         cid += rng.choice((1, 1, 2, 5))
         if i < n_cells - 1:
-            e = random_expr(rng, ids, 2, macro)
+            e = random_expr(rng, ids + implicit, 2, macro)
             for p in prev:
                 e = ('*', e, ('#', p) if rng.random() < 0.8 else ('~', d.cells[p].expr) if _no_hash(d.cells[p].expr) else ('#', p))
         else:
@@ -408,6 +413,14 @@ def level0_deck(seed, n_cells=4, n_surfs=5, with_tr=True, with_macro=True, with_
             rho = '-' + rho.lstrip('-')
         imp = rng.choice([1, 1, 1, 0, 2])
         c = Cell(cid, mat, rho if mat else None, e, imp=imp, imp_on_card=not use_imp_card)
+        if with_tr and i < n_cells - 1 and rng.random() < 0.3:
+            # a cell with TRCL: its surfaces s are also available to later cells as 1000*cell + s
+            c.trcl = rng.choice(INLINE_TRS[:3] + [INLINE_TRS[4]] + [('num', k) for k in d.trs])
+            own = set()
+            _own_surfaces(e, own)
+            own = [s_ for s_ in own if s_ in ids]
+            if own:
+                implicit.append(1000 * cid + rng.choice(own))
         d.add_cell(c)
         imps.append(imp)
         prev.append(cid)
@@ -416,6 +429,14 @@ def level0_deck(seed, n_cells=4, n_surfs=5, with_tr=True, with_macro=True, with_
     if use_imp_card:
         d.imp_card = imps
     return d
+
+
+def _own_surfaces(e, out):
+    if e[0] == 's':
+        out.add(abs(e[1]))
+    elif e[0] in ('*', ':', '~'):
+        for a in e[1:]:
+            _own_surfaces(a, out)
 
 
 def _no_hash(e):
